@@ -73,6 +73,12 @@ func (ex *Exec) evalCall(e *ast.CallExpr) Value {
 			args = append(args, ex.eval(a))
 		}
 	}
+	off := len(args) - len(e.Args)
+	if !sig.Variadic() && len(e.Args) == np {
+		for i := 0; i < np; i++ {
+			args[off+i] = ex.coerce(args[off+i], sig.Params().At(i).Type())
+		}
+	}
 	full := fobj.FullName()
 	if fr := ex.prog.FuncOf(fobj); fr != nil {
 		return ex.callModule(fr, args, e)
